@@ -5,7 +5,7 @@ from __future__ import annotations
 
 from itertools import product
 
-from .. import lib, tabs
+from .. import gen, lib, tabs
 from ..ref import sem as rsem, syn
 
 ID = 'C04'
@@ -74,6 +74,7 @@ def units(tier, seed):
         S = rsem.sem(n)
         if S.modal:
             us.append(dict(name=f'frames:{n}', kind='frames', logic=n))
+            us.append(dict(name=f'insitu:{n}', kind='insitu', logic=n))
     return us
 
 
@@ -437,6 +438,82 @@ def run_frames(name, out, tier, seed):
                 out.sample(dict(logic=name, pairs=pairs, final=final), limit=2)
 
 
+# ----------------------------------------------------------------- in situ: the world discipline inside real proofs
+
+INSITU_N = dict(quick=60, thorough=600)
+
+
+def check_world_discipline(name, S, arg, tab, out, case):
+    """Every sentence node a step added at a world other than its target node's world must (a) come from a modal
+    target and (b) sit at a world the target's world sees ON THAT BRANCH (access node present no later than the step).
+    A fresh-branch check cannot see a rule that is exact in isolation but reads helper state shared with a sibling."""
+    from ..trace import _node_steps
+    trunk_len = len(arg[0]) + 1
+    seen = set()
+    for bi, b in enumerate(tab):
+        access = {}
+        for n in b:
+            if n.get('world1') is not None and n.get('world2') is not None:
+                sa, _ = _node_steps(tab, b, n)
+                access.setdefault((int(n['world1']), int(n['world2'])), sa if sa is not None else 0)
+        for idx, n in enumerate(b):
+            if idx < trunk_len or n.get('sentence') is None or n.get('world') is None:
+                continue
+            if (id(n), bi) in seen:
+                continue
+            seen.add((id(n), bi))
+            sa, _ = _node_steps(tab, b, n)
+            # current_step = rule applications so far + 1 once the trunk is built: step k is history[k - 1]
+            if sa is None or not (1 <= sa <= len(tab.history)):
+                continue
+            e = tab.history[sa - 1]
+            tn = e.target.get('node')
+            if tn is None or tn.get('world') is None or tn.get('sentence') is None:
+                continue
+            w1, w2 = int(tn['world']), int(n['world'])
+            out.count('insitu_added_nodes_checked')
+            if w1 == w2:
+                continue
+            out.count('insitu_cross_world_additions')
+            ts = syn.from_lib(tn['sentence'])
+            core = ts[2][0] if (ts[0] == 'O' and ts[1] == 'Negation') else ts
+            is_modal = core[0] == 'O' and core[1] in syn.MODAL
+            diag = None
+            if not is_modal:
+                diag = 'non-modal-expansion-left-its-world'
+            elif (w1, w2) not in access or access[(w1, w2)] > sa:
+                diag = 'modal-instance-at-a-world-not-accessible-on-this-branch'
+            if diag:
+                out.violation('insitu-world-discipline',
+                              dict(case, rule=e.rule.name, step=sa, branch=bi, target=tabs.show_spec(tabs.node_spec(tn)),
+                                   added=tabs.show_spec(tabs.node_spec(n)),
+                                   access_on_branch=sorted(access)),
+                              dict(diag=diag, rule=e.rule.name, family=S.base_name),
+                              f'{name}: {gen.show_arg(arg)}: step {sa} ({e.rule.name}) on {tabs.show_spec(tabs.node_spec(tn))} added '
+                              f'{tabs.show_spec(tabs.node_spec(n))} on branch {bi} whose access pairs are {sorted(access)}: {diag}',
+                              size=gen.arg_size(arg))
+                return
+
+
+def run_insitu(name, out, tier, seed):
+    import random
+    from .. import workload, proofcheck as pc
+    S = rsem.sem(name)
+    desig = tabs.uses_designation(name)
+    rng = random.Random(f'{seed}:{name}:insitu')
+    cases = list(workload.cases(name, desig, rng, n_random=INSITU_N[tier], with_examples=(tier == 'thorough')))
+    cases = [c for c in cases if c[1] in ('hostile', 'example') or 'modal' in c[1] or rng.random() < 0.3]
+    for i, (label, frag, arg) in enumerate(cases):
+        cfg, driver, order = workload.config_cycle(i, seed)
+        r = pc.run_cfg(name, arg, cfg, driver, order, tier)
+        out.count('insitu_runs')
+        out.case((name, 'insitu', gen.arg_key(arg)))
+        if r.outcome == 'ERROR' or r.tab is None:
+            continue
+        check_world_discipline(name, S, arg, r.tab, out,
+                               dict(logic=name, argument=gen.arg_to_json(arg), label=label, **pc.cfg_json(cfg, driver, order)))
+
+
 def run_unit(unit, out, tier, seed):
     name = unit['logic']
     if name not in lib.logic_names():
@@ -446,6 +523,8 @@ def run_unit(unit, out, tier, seed):
     if unit['kind'] == 'rules':
         out.count('logics')
         run_rules(name, out, tier)
+    elif unit['kind'] == 'insitu':
+        run_insitu(name, out, tier, seed)
     else:
         run_frames(name, out, tier, seed)
 
@@ -454,6 +533,11 @@ def replay(wit):
     from ..worker import Out
     out = Out()
     c = wit['case']
+    if wit['kind'] == 'insitu-world-discipline':
+        from .. import proofcheck as pc
+        r = pc.run_cfg(c['logic'], gen.arg_from_json(c['argument']), c['cfg'], c['driver'], c['order'], 'thorough')
+        check_world_discipline(c['logic'], rsem.sem(c['logic']), gen.arg_from_json(c['argument']), r.tab, out, dict(logic=c['logic']))
+        return dict(violates=bool(out.violations), detail=[v['message'] for v in out.violations][:3])
     kind = 'frames' if wit['kind'].startswith('frame') else 'rules'
     run_unit(dict(logic=c['logic'], kind=kind), out, 'thorough', 0)
     same = [v for v in out.violations if v['kind'] == wit['kind'] and v['diagnosis'] == wit['diagnosis']]
